@@ -1227,25 +1227,25 @@ void ScriptEmitter::EmitInteger(uint64_t value, sourceLocation_t sourceLoc)
     {
         EmitOpcode(OP_STORE_INT0, sourceLoc);
     }
-    else if (value <= (1 << 8))
+    else if (value < (1 << 8))
     {
         EmitOpcode(OP_STORE_INT1, sourceLoc);
 
         WriteOpValue<uint8_t>(static_cast<uint8_t>(value));
     }
-    else if (value <= (1 << 16))
+    else if (value < (1 << 16))
     {
         EmitOpcode(OP_STORE_INT2, sourceLoc);
 
         WriteOpValue<uint16_t>(static_cast<uint16_t>(value));
     }
-    else if (value <= (1 << 24))
+    else if (value < (1 << 24))
     {
         EmitOpcode(OP_STORE_INT3, sourceLoc);
 
         WriteOpValue<short3>(static_cast<short3>(value));
     }
-    else if(value <= (1ll << 32ll))
+    else if(value < (1ull << 32))
     {
         EmitOpcode(OP_STORE_INT4, sourceLoc);
 
